@@ -540,6 +540,19 @@ def check_linear_forms(ctx):
         ctx.check(poly_eq(got, want), R3, f"{m.key}:scalar-branch:{norm(r)[:60]}", "term * number scales the coefficient by the number", f"term * number returns {short(r)} which denotes {show(got)}, expected {show(want)}", f"{m.module.relpath}:{r.lineno}")
     if not rets:
         ctx.undecided(R3, f"{m.key}:scalar-branch", "no `self.copy(...)` return for the numeric operand", m)
+    # any further exit written as an expression over the operands (a shortcut for a "trivial" operand) denotes the product as well
+    covered = {id(r) for r in rets} | {id(r) for r in returned_exprs(m.node) if "PauliSum" in norm(r)}
+    for r in returned_exprs(m.node):
+        if id(r) in covered or isinstance(r, ast.Name) or (isinstance(r, ast.Constant) and r.value is NotImplemented) or norm(r) == "NotImplemented":
+            continue
+        loop_built = {t.id for l in body_walk(m.node) if isinstance(l, ast.For) for st in ast.walk(l) if isinstance(st, (ast.Assign, ast.AugAssign)) for t in (st.targets if isinstance(st, ast.Assign) else [st.target]) if isinstance(t, ast.Name)}
+        if loop_built & {n.id for n in ast.walk(r) if isinstance(n, ast.Name)}:
+            continue  # the general term-by-term product, accumulated in a loop: decided by C03-D2
+        got = denote(r, d, keep=("self", other))
+        want = p_mul(p_atom("self"), p_atom(other))
+        if got is None:
+            continue
+        ctx.check(poly_eq(got, want), R3, f"{m.key}:shortcut:{norm(r)[:60]}", "the shortcut exit denotes self * other", f"PauliTerm.__mul__ has an exit returning {short(r)}, which denotes {show(got)}, not {show(want)}: the operand the shortcut treats as trivial (a constant term, say) still carries a coefficient, which is dropped", f"{m.module.relpath}:{r.lineno}")
     # first two branches of PauliTerm.__mul__ with a sum: (PauliSum([self]) * other)
     sums = [r for r in returned_exprs(m.node) if "PauliSum" in norm(r)]
     for i, r in enumerate(sums):
